@@ -72,9 +72,14 @@ masked old/new after include) and `WithUpdatesOnly` (no seed).
                                        `ScVerif/C08/Booking.lean`): message tokens are booked periods `s/e`
                                        (`-` = unbounded side, seconds) or `nil` (no booked period); `<q>` is the
                                        request's `booking_intersects` period or `absent`
-* `genid <none|lower> <cands|-> <taken|->`  `Collection.genID` (`ScVerif/C08/GenId.lean`): the id chosen from the
+* `genid <none|lower|ns> <cands|-> <taken|->`  `Collection.genID` (`ScVerif/C08/GenId.lean`): the id chosen from the
                                        candidates the rng yields (comma separated, in order), given the stored ids,
                                        on a collection without / with the lower-casing id interceptor; `Aborted`
+* `pullid[:<mask>:<equiv>:<0|1>[:<none|lower>]] <pred> <id> <nBefore> <op>*`  `Collection.PullID(id, WithInclude pred, …)`
+                                       with backpressure (`ScVerif/C08/PullId.lean`: `pullIdLoop` over the underlying
+                                       Pull's stream; the id goes through the interceptor) → `seed=<values sent as
+                                       seed> <values sent for each later write> … end=<open|closed> list=<List(WithInclude)
+                                       at the end>`; a value reads `<token>/<SeedValue 0|1>`, `-` = nothing sent
 * `bpullx <q> <u 0|1> <mask> <nBefore> <op>*`  the same with `updates_only` (no seed) and a read mask (`none`, or
                                        `id`: the booked period is stripped, every delivered / listed value reads `nil`;
                                        include still judges the stored period)
@@ -555,7 +560,8 @@ def handle? (toks : List String) : Option String :=
   | "bpull" :: q :: n :: rest => handleBPull? q n rest
   | ["genid", canon, cs, tk] => do
     -- `genid <none|lower> <candidates,…|-> <taken ids,…|->`: Collection.genID over the candidates the rng yields
-    let f ← if canon = "none" then some (id : String → String) else if canon = "lower" then some String.toLower else none
+    let f ← if canon = "none" then some (id : String → String) else if canon = "lower" then some String.toLower
+      else if canon = "ns" then some (fun s => if s.startsWith "ns/" then s else "ns/" ++ s) else none
     let cands := if cs = "-" then [] else cs.splitOn ","
     let taken := if tk = "-" then [] else tk.splitOn ","
     pure (match genUniqueId f (fun c => c ≠ "") (fun i => taken.contains i) cands with
